@@ -241,7 +241,7 @@ impl Callback for SimpleStats {
         }
 
         // Save time between blocks
-        if self.last_timestamp > 0 {
+        if self.n_valid_blocks > 1 {
             let diff = block
                 .header
                 .value
